@@ -4,13 +4,15 @@ CalsDef == {[mina |-> 0, maxa |-> 180000, minp |-> 544000, maxp |-> 2400000],
             [mina |-> 10000, maxa |-> 170000, minp |-> 1000000, maxp |-> 2000000],
             [mina |-> 0, maxa |-> 90000, minp |-> 600000, maxp |-> 2300000],
             [mina |-> -90000, maxa |-> 90000, minp |-> 544000, maxp |-> 2400000],        \* ranges that leave the stock 0..180 degrees
-            [mina |-> 0, maxa |-> 270000, minp |-> 500000, maxp |-> 2500000]}
+            [mina |-> 0, maxa |-> 270000, minp |-> 500000, maxp |-> 2500000],
+            [mina |-> 22500, maxa |-> 112500, minp |-> 600000, maxp |-> 2400000]}         \* bounds that are not whole degrees
 AnglesDef == {-1000, -100, 0, 400, 500, 600, 1000, 45300}
 PulsesDef == {-1000, -500, 0, 400, 500, 600, 250000}
 \* reduced grids for the quick tier
 CalsQ   == {[mina |-> 0, maxa |-> 180000, minp |-> 544000, maxp |-> 2400000],
             [mina |-> 10000, maxa |-> 170000, minp |-> 1000000, maxp |-> 2000000],
-            [mina |-> -90000, maxa |-> 90000, minp |-> 544000, maxp |-> 2400000]}
+            [mina |-> -90000, maxa |-> 90000, minp |-> 544000, maxp |-> 2400000],
+            [mina |-> 22500, maxa |-> 112500, minp |-> 600000, maxp |-> 2400000]}
 AnglesQ == {-1000, 0, 400, 45300}
 PulsesQ == {-500, 0, 600, 250000}
 =============================================================================
